@@ -114,26 +114,26 @@ func genC07(r *Rng, tier string, idx int) *Plan {
 }
 
 type c07Run struct {
-	p       *Plan
-	o       *Outcome
-	s       *Sim
-	c       *Cluster
-	dice    *Dice
-	nodes   int
-	insts   []*Instance
-	clients []*Client
-	alive   []bool
-	gen     int
-	names   []string
-	acked   []string // unique values acknowledged by a leader
-	sawRel  bool     // a clock-relative command was committed
-	sawRand bool     // a random-by-design command was committed
-	sawAbs  bool     // a command with an absolute deadline was committed
-	snapRestart bool // the plan takes raft snapshots and restarts nodes
+	p           *Plan
+	o           *Outcome
+	s           *Sim
+	c           *Cluster
+	dice        *Dice
+	nodes       int
+	insts       []*Instance
+	clients     []*Client
+	alive       []bool
+	gen         int
+	names       []string
+	acked       []string        // unique values acknowledged by a leader
+	sawRel      bool            // a clock-relative command was committed
+	sawRand     bool            // a random-by-design command was committed
+	sawAbs      bool            // a command with an absolute deadline was committed
+	snapRestart bool            // the plan takes raft snapshots and restarts nodes
 	randKeys    map[string]bool // keys named by a random-by-design command
 	expiredKeys map[string]bool // "db/key" that carried a deadline which has passed at some check
-	adv     bool     // the clock was advanced after the first commit
-	faults  []string
+	adv         bool            // the clock was advanced after the first commit
+	faults      []string
 }
 
 func (a *c07Run) fail(sig, detail string) {
